@@ -43,3 +43,29 @@ Print Assumptions c10_decoder_total.
 Theorem c10_old_rsa_refuted : exists k, validate_old k = true /\ validate k = false.
 Proof. exact validate_old_refuted. Qed.
 Print Assumptions c10_old_rsa_refuted.
+
+(* The parse step explicit: on every path, for every pair of parser outputs, a certificate is only
+   issued for a key that passes the strength predicate - PROVIDED that on a path that parses the
+   input twice (SSH: validator and signer) the two parsers deliver the same key.  That equality is
+   not a fact about the model: it is checked on every run against the real validator and the real
+   signer (correspondence c10_agree), on files of the authorized_keys grammar built from pairs of a
+   strong and a weak key. *)
+Theorem c10_pipeline_parse_explicit : forall path v s k,
+  (parses_twice path = true -> s = v) -> pipeline_of path v s = Signed k -> validate k = true.
+Proof. exact pipeline_of_strong. Qed.
+Print Assumptions c10_pipeline_parse_explicit.
+
+Theorem c10_single_parse_paths : forall path v s k,
+  parses_twice path = false -> pipeline_of path v s = Signed k -> validate k = true.
+Proof. exact pipeline_of_single_parse. Qed.
+Print Assumptions c10_single_parse_paths.
+
+(* and the hypothesis is needed: two parsers that disagree certify a weak key *)
+Theorem c10_disagreeing_parsers_refuted : exists p k, pipeline2 p = Signed k /\ validate k = false.
+Proof. exact pipeline2_disagree_refuted. Qed.
+Print Assumptions c10_disagreeing_parsers_refuted.
+
+Theorem c10_weak_is_client_error_every_path : forall path v s,
+  (forall k, v = Some k -> validate (snd k) = false) -> pipeline_of path v s = ClientError.
+Proof. exact pipeline_of_weak_is_client_error. Qed.
+Print Assumptions c10_weak_is_client_error_every_path.
